@@ -2,7 +2,7 @@ INIT OInit
 NEXT ONext
 CONSTANTS
   Species = {"A", "B", "C", "D"}
-  Catalog <- Cat16
+  Catalog <- Cat8
   MaxR = 2
   KVals <- K3
   Orders <- OrdOne
@@ -12,6 +12,10 @@ CONSTANTS
   PhaseMaps <- Ph1
   ReKVals <- NoReK
   MaxHist = 0
+  NameMap <- NmIon
+  PForms <- PfPlain
+  Containers <- CtList
+  OvKVals <- Ov3
   Configs <- CfgThree
   Comp <- CompDef
 INVARIANT FreeVsInlinedAgree
